@@ -76,6 +76,14 @@ pub enum DataPdu {
     Other { typ2: u8, payload: Vec<u8> },
 }
 
+impl DataPdu {
+    /// client-to-server data PDUs that are legal at any time in an active session and that none of the properties
+    /// speaks about: Refresh Rect (0x21), Suppress Output (0x23), Shutdown Request (0x24), Persistent Key List (0x2b)
+    pub fn is_unrelated_legal(&self) -> bool {
+        matches!(self, DataPdu::Other { typ2, .. } if [0x21u8, 0x23, 0x24, 0x2b].contains(typ2))
+    }
+}
+
 #[derive(Clone, Debug, PartialEq)]
 pub enum SharePdu {
     ConfirmActive(ConfirmActive),
